@@ -62,7 +62,8 @@ class Contract:
     def __init__(self, key, prop, types=None, returns=None, requires=(), ensures=(), ensures_exc=(),
                  raises=None, modifies=(), effects=(), loops=None, locals=None, inline=False, funcs=None,
                  ghost=None, mode="prove", unroll=None, comps=None, name=None, setup=(), max_paths=None,
-                 frame=None, lock=None, replay=None, timeout_ms=None, axioms=(), post_setup=(), pure_result=None, asserts=None, nonlinear=False, unreachable_ok=()):
+                 frame=None, lock=None, replay=None, timeout_ms=None, axioms=(), post_setup=(), pure_result=None, asserts=None, nonlinear=False, unreachable_ok=(),
+                 fs_inv=(), fs_policy=(), fs_opts=None, call_pre=None):
         self.key = key
         self.prop = prop if isinstance(prop, (list, tuple)) else [prop]
         self.short = name or key.split(":", 1)[1]
@@ -92,6 +93,14 @@ class Contract:
         self.post_setup = list(post_setup)
         self.asserts = dict(asserts or {})
         self.nonlinear = nonlinear
+        # abstract file system (pyvc/fsmodel.py): crash invariant proved after every effect on the ghost `fs`,
+        # effect policy proved at every effect (spec over fs_op / fs_target), fault-alphabet options
+        self.fs_inv = _pairs(fs_inv)
+        self.fs_policy = _pairs(fs_policy)
+        self.fs_opts = dict(fs_opts or {})
+        # {callee key: [(name, spec)]}: caller-side obligations proved in this function's own environment right
+        # before a modular call it makes to that callee (what the caller must have established by then)
+        self.call_pre = {k: _pairs(v) for k, v in (call_pre or {}).items()}
         self.unreachable_ok = list(unreachable_ok)
         self.pure_result = pure_result
         if pure_result is not None:
@@ -382,7 +391,9 @@ class Verifier:
         return r
 
     def fs_method(self, I, f, name, args, kw):
-        raise Unsupported("file method %s" % name)
+        """methods of file objects: trusted contracts of the abstract file system (pyvc/fsmodel.py)"""
+        from . import fsmodel
+        return fsmodel.file_method(I, f, name, args, kw)
 
     # ---------------------------------------------------------------- aggregates (ghost sums over maps)
     def _agg_f(self, I, agg, m, val_e):
@@ -854,6 +865,7 @@ class Verifier:
             for nm, src in c.requires:
                 path.assume(I.eval_spec(src, env, assume=True))
             I.old_env = I.snapshot_env(env)
+            I.top_env = env
             self.cur_inputs = I.old_env
             if not prefix:
                 if not path.feasible(z3.BoolVal(True)):
@@ -862,6 +874,9 @@ class Verifier:
             f = VFunc("ast", node.name, node=node, module=mod)
             f.qual = c.key
             I.fn_stack.append(f)
+            if c.fs_inv:
+                from . import fsmodel
+                fsmodel.check_inv(I, "entry")
             result = None
             exc = None
             if c.mode == "bounded" and c.unroll:
